@@ -41,6 +41,7 @@ func checkC01(e *Engine, r *Report) {
 		"R1 re-pin after every change of a shared set: allocation, release, update, re-allocation and re-instatement reach updateSharedAllocations on their success paths, and it visits every grant",
 		"R6+R11 composition of the told cpuset: reserved class tells exactly the reserved set; normal class tells a subset of exclusive ∪ free-sharable; the shared part comes from the free supply (which excludes every other container's exclusive CPUs)",
 		"R2 reserved-class eligibility: only the reserved-CPU annotation or a reserved namespace (kube-system or a configured pattern) yields class reserved; the only class rewrite is reserved→normal when the pool tree has no reserved CPUs",
+		"round 4: the tree accounting applies to every pool other than the granting one (AccountAllocateCPU/AccountReleaseCPU update both sets whenever IsSameNode is false); setPreferredCpusetCpus tells its container the set it is given or that set reduced to one thread per core, applyGrant calls it whenever pinning is on, the class is normal/reserved and the composed set is non-empty and never clears the cpuset then; re-pinning keeps the container's own exclusive CPUs in the told set",
 	}
 	r.NotDecided = []string{"the global invariant 'pairwise disjoint between all live containers after every history' (induction over histories that also needs sibling pools to have disjoint CPU sets, a hardware fact)", "which CPUs the allocator picks (C08)"}
 	r.Assumptions = []string{"takeCPUs/AllocateCpus returns a subset of the set it is given and removes it from that set (C08 contract)", "isolated and sharable sets of one supply are disjoint at function entry (established by getCpuSupply, preserved by the frame lemmas)", "ExclusiveCPUs()/IsolatedCPUs()/SharableCPUs()/ReservedCPUs() are pure accessors"}
